@@ -74,7 +74,7 @@ func tryReplay(p *Prog, vdir, prop string, o *Obligation, vc *VC, rdir string) s
 
 func tryReplay1(p *Prog, vdir, prop string, o *Obligation, vc *VC, rdir string, driver string) string {
 	// package directory of the function
-	fn := p.allFuncs()[o.Func]
+	fn := p.allFuncs()[baseKey(o.Func)]
 	if fn == nil {
 		return ""
 	}
